@@ -8,7 +8,7 @@
           5 node oracle fails inside the window of known finding C19-foreign-stale
           6 sorted ask list oracle fails (not sorted / wrong content) *)
 From Coq Require Import List ZArith NArith Bool.
-From YK Require Import Base.Int64 Base.F64 Base.Res Sort.Sort Sort.Cmp Sort.Nodes Sort.Spec.
+From YK Require Import Base.Int64 Base.F64 Base.Res Sort.Sort Sort.Cmp Sort.Nodes Sort.Score Sort.Spec.
 Import ListNotations.
 Open Scope Z_scope.
 
@@ -111,6 +111,15 @@ Definition fam_check (cs : list fam_case) : list (N * N) :=
 (* ---------------------------------------------------------------- asks *)
 Definition req_case := (list (req_op * list N) * list (ask * ask * bool))%type.
 
+(* position by position the same keys (priority, creation time): where the code puts an ask among asks
+   with identical keys is not part of the policy, so it is not compared *)
+Fixpoint asks_equiv (l1 l2 : list ask) : bool :=
+  match l1, l2 with
+  | [], [] => true
+  | a :: s, b :: t => negb (askBefore a b) && negb (askBefore b a) && asks_equiv s t
+  | _, _ => false
+  end.
+(* every step is checked from the state the implementation was observed in *)
 Fixpoint req_steps (s sp : list ask) (all : list ask) (l : list (req_op * list N)) : list N :=
   match l with
   | [] => []
@@ -119,9 +128,9 @@ Fixpoint req_steps (s sp : list ask) (all : list ask) (l : list (req_op * list N
       let sp' := spec_step sp o in
       let all' := match o with RIns a => a :: all | _ => all end in
       let lo := map (find_by k_id dummyAsk all') obs in
-      (if ids_eqb (map k_id s') obs then [] else [1%N]) ++
+      (if asks_equiv s' lo && same_ids (map k_id s') obs then [] else [1%N]) ++
       (if req_sorted lo && same_ids (map k_id sp') obs then [] else [6%N]) ++
-      req_steps s' sp' all' t
+      req_steps lo sp' all' t
   end.
 Definition req_check1 (c : req_case) : list N :=
   let '(ops, probes) := c in
@@ -136,7 +145,9 @@ Record nobs := mkObs {
   o_cached : list (N * Z);       (* nc.nodes: id -> cached score, ascending id *)
   o_tree : list (Z * N);         (* nc.sortedNodes in Ascend order *)
   o_current : list (N * Z);      (* scoreNode(node) recomputed now, ascending id *)
-  o_resset : list N }.           (* registered nodes with IsReserved() *)
+  o_resset : list N;             (* registered nodes with IsReserved() *)
+  o_cap : ores; o_avail : ores;  (* capacity / available of the node the operation touched (None: none) *)
+  o_touched : bool }.
 Definition node_case := (nat * list (cop * nobs))%type.
 
 Fixpoint kv_eqb (a b : list (N * Z)) : bool :=
@@ -176,12 +187,28 @@ Definition node_obs_check (c : coll) (dirty : list N) (o : nobs) : list N :=
         ids_eqb (map fst (o_cached o)) (map fst (o_current o))
      then [5%N] else [4%N]).
 
-Fixpoint node_steps (cd : coll * list N) (l : list (cop * nobs)) : list N :=
+(* the score table handed to the node model = ScoreNode model on the node's capacity / available *)
+Fixpoint optZ_eqb (a : list (option Z)) (b : list Z) : bool :=
+  match a, b with
+  | [], [] => true
+  | Some x :: s, y :: t => Z.eqb x y && optZ_eqb s t
+  | _, _ => false
+  end.
+Definition score_check (pols : list policy) (op : cop) (o : nobs) : list N :=
+  if negb (o_touched o) then [] else
+  let scores := match op with OAdd _ n => Some (n_scores n) | ONode _ _ sc _ => Some sc | _ => None end in
+  match scores with
+  | None => []
+  | Some sc => if optZ_eqb (map (fun p => score_key (scoreNode p (o_cap o) (o_avail o))) pols) sc then [] else [1%N]
+  end.
+
+Fixpoint node_steps (pols : list policy) (cd : coll * list N) (l : list (cop * nobs)) : list N :=
   match l with
   | [] => []
-  | (op, o) :: t => let cd' := step_g cd op in node_obs_check (fst cd') (snd cd') o ++ node_steps cd' t
+  | (op, o) :: t => let cd' := step_g cd op in
+                    node_obs_check (fst cd') (snd cd') o ++ score_check pols op o ++ node_steps pols cd' t
   end.
-Definition node_check1 (c : node_case) : list N :=
-  let '(p, l) := c in dedup (node_steps (init p, []) l).
-Definition node_check (cs : list node_case) : list (N * N) :=
-  tag 400000 (indexed 0 (map node_check1 cs)).
+Definition node_check1 (pols : list policy) (c : node_case) : list N :=
+  let '(p, l) := c in dedup (node_steps pols (init p, []) l).
+Definition node_check (pols : list policy) (cs : list node_case) : list (N * N) :=
+  tag 400000 (indexed 0 (map (node_check1 pols) cs)).
